@@ -452,6 +452,13 @@ pub fn gen(focus: &str, seed: u64, count: u64) -> Vec<String> {
             && body.contains(" len=") && !body.contains("mode=") && g.chance(0.06) {
             format!("{} rots={}", body, *g.pick(&[0u64, 0, 2, 3, 7]))
         } else { body };
+        // a state of another group of the same order with the same parameters is built on the same thread just before
+        let body = if (focus == "C15" || focus == "C04" || focus == "C14" || focus == "C01" || focus == "C03") && body.contains(" len=") && !body.contains("mode=") && g.chance(0.06) {
+            let grp = body.split(' ').find_map(|t| t.strip_prefix("group=")).unwrap_or("p1").to_string();
+            let same_order: &[&str] = match grp.as_str() { "p1" => &["p1"], "p2" | "p1m1" | "p1g1" => &["p2", "p1m1", "p1g1"], _ => &["p2mm", "p2mg", "p2gg"] };
+            let other: Vec<&&str> = same_order.iter().filter(|x| **x != grp.as_str()).collect();
+            if other.is_empty() { body } else { format!("{} prev={}", body, other[g.below(other.len() as u64) as usize]) }
+        } else { body };
         // C14: shell counts outside the optimiser's usual 0..3: negative (an empty range), and large
         let body = if focus == "C14" && body.contains(" k=") && !body.contains("mode=") && g.chance(0.08) {
             let k = *g.pick(&[-1i64, -1, -2, -7, 7, 25]);
